@@ -249,6 +249,25 @@ def r4(ctx):
         pd = U.expand_locals(dp.node, rets_[0].value,
                              before=rets_[0].lineno, depth=2,
                              keep=('start', 'end', 'p_duct', 'duct_id'))
+    # block d of the concatenated duct power vector: [d N, (d + 1) N)
+    N_ = "self.subchannel.n_sc['duct']['total']"
+    did = dp.params[-1]
+    for nm_, want in (('start', Rat.sym('d') * Rat.sym('N')),
+                      ('end', (Rat.sym('d') + Rat.const(1)) * Rat.sym('N'))):
+        dv = U.single_def(dp.node, nm_)
+        okb = False
+        if dv is not None:
+            try:
+                okb = from_ast(U.expand_locals(dp.node, dv, keep=(did,)),
+                               {did: 'd', N_: 'N'}).equals(want)
+            except NotPolynomial:
+                okb = False
+        ctx.require(okb, 'C11.R4', dp, dv if dv is not None else dp.node,
+                    'duct %s reads block %s of the duct power vector (inner '
+                    'duct first): %s = %s x cells per duct' % (
+                        did, did, nm_, 'duct id' if nm_ == 'start'
+                        else '(duct id + 1)'),
+                    key='%s | power block %s' % (dp.full, nm_))
     ctx.require(pd is not None and ' '.join(src(pd).split()) ==
                 "p_duct[start:end] / self.duct_params['q_area'][duct_id, "
                 "self._duct_idx]", 'C11.R4', dp,
